@@ -151,6 +151,8 @@ def run_case(case, seed):
                     evals += 1
                     if not ok:
                         fails.append(fail("norm_raised", f"{nm}: {type(v).__name__}: {v}", fn=nm, **tags))
+                    elif not isinstance(v, (int, float, np.floating, np.integer)) and not (isinstance(v, np.ndarray) and v.ndim == 0):
+                        fails.append(fail("norm_not_a_scalar", f"{nm} returned {type(v).__name__}", fn=nm, **tags))
                     elif not (abs(float(v) - exp) <= tol):
                         fails.append(fail("norm!=definition", f"{nm} = {float(v)!r}, definition gives {exp!r} (A idx={idx.tolist()} scale={cscale})", fn=nm, **tags))
                 ok, ab = call(lib.tensor.tensor_entrywise_abs, Aq)
